@@ -187,6 +187,13 @@ Judge(e, n, pre, post) ==
   \* handled by nothing (if anything is stored, validated or sent, the term of ANOTHER height handled it)
   /\ Chk((e.ev = "deliver" /\ same /\ ~pre.member) => (e.stores = <<>> /\ e.sent = <<>> /\ e.vals = <<>>),
          "c17_message_handled_although_node_has_no_term_of_that_height")
+  \* C04: "proposed in a PREPREPARE signed by the legitimate leader of its view": a proposal of another member that a node takes into
+  \* its log comes from a PREPREPARE - standalone or embedded in a NEW_VIEW, whose own signature does not cover it - that verifies
+  \* under the key of the leader of its view
+  /\ Chk((e.ev = "deliver" /\ same /\ \E i \in DOMAIN e.stores : e.stores[i].kind = "PP" /\ e.stores[i].s # n) =>
+           \/ (m.k = "PP" /\ m.sig /\ m.s = LeaderM(pre.h, m.vm))
+           \/ (m.k = "NV" /\ m.pp.sig /\ m.pp.s = LeaderM(pre.h, m.vm)),
+         "c04_stored_proposal_not_signed_by_the_leader_of_its_view")
   \* C04: "approved by ValidateBlockProposal ... at that height": what a node asks its consumer to validate is asked for a height
   \* the node is deciding in this step (its height before the step .. its height after it: a step may close a height and go on)
   /\ Chk(\A j \in DOMAIN e.vals : e.vals[j].h >= pre.h /\ e.vals[j].h <= post.h, "c04_consumer_asked_to_validate_for_another_height")
